@@ -480,8 +480,8 @@ CHECKS = {
         }, {
             # translator validation of the engine's library models (not a property of the
             # repository): the same function runs natively and the observable traces must agree
-            "cross_solvers": ["cvc5", "z3-new"], "pkg": EV, "funcs": ["VerifEngineSelfTest"],
-            "covers": {"VerifEngineSelfTest": ["self-tested"]},
+            "cross_solvers": ["cvc5", "z3-new"], "pkg": EV, "funcs": ["VerifEngineSelfTest", "VerifEngineSelfTest2"],
+            "covers": {"VerifEngineSelfTest": ["self-tested"], "VerifEngineSelfTest2": ["self-tested"]},
         }],
         "assumptions": [
             "inductive step: pre-state is ANY (progress, max, log length) with 0 <= progress <= max < 2^62, 0 <= length < 2^62; argument 0 <= x < 2^62",
